@@ -101,17 +101,25 @@ impl Elem for i32 {
 impl Elem for RotoString {
     const NAME: &'static str = "string";
     fn make(key: u64) -> RotoString {
+        // every 11th key is the EMPTY string (all of them equal: canon 5), so that lists start
+        // with, end in and consist of empty strings (join, ==, contains on zero-length payloads)
+        if key % 11 == 5 {
+            return RotoString::from("");
+        }
         // a few long ones so that the payload is not only short strings
         if key % 7 == 3 { RotoString::from(format!("s{key}-{}", "x".repeat((key % 40) as usize))) } else { RotoString::from(format!("s{key}")) }
     }
     fn canon(key: u64) -> u64 {
-        key
+        if key % 11 == 5 { 5 } else { key }
     }
     fn plain(key: u64) -> String {
         Self::make(key).to_string()
     }
     fn key_of(&self) -> u64 {
         let s: &str = self;
+        if s.is_empty() {
+            return 5;
+        }
         if !s.starts_with('s') {
             return u64::MAX - 2;
         }
